@@ -80,7 +80,7 @@ def gen_history(rng, scn, length=6, p_fault=0.35, p_dry=0.12, p_render=0.08, max
 
 
 def _enc(x):
-    return x if CS._is_term(x) else CS.T(-2, 0, [])
+    return CS.enc(x)
 
 
 def _fresh_rank(U, st):
